@@ -265,9 +265,24 @@ func vScenarioC14(rc *runCtx) {
 			cfg2.srvTmux = ""
 		}
 	}
+	// ... nor need the tunnel be available again: the next server cannot listen, or a relay's connector towards
+	// the next machine has stopped working; the transfer then runs in-band, and the relay narrows it as ever
+	tunnel2 := "same"
+	if cfg.tunnel {
+		tunnel2 = []string{"same", "server-cannot-listen", "relay-connector-dead"}[tp.Pick("c14.tunnel2", 3, 2, 2)]
+		if tunnel2 != "same" {
+			cfg2.fork = false
+		}
+	}
+	rc.res.Scenario["second_tunnel"] = tunnel2
 	dst2 := filepath.Join(rc.dir, "dst2")
 	os.MkdirAll(dst2, 0755)
 	o2 := cfg2.opts()
+	o2.noListen = tunnel2 == "server-cannot-listen"
+	o2.relayConnDead = tunnel2 == "relay-connector-dead"
+	if tunnel2 != "same" {
+		rc.fault("tunnel-gone-for-second-transfer")
+	}
 	o2.srcPaths = spec.paths
 	o2.dstDir = dst2
 	x.settle(10 * time.Second) // let the first OneTimeUpload watchdog expire
@@ -281,6 +296,19 @@ func vScenarioC14(rc *runCtx) {
 	if !rep2.serverExited || x.filter.IsTransferringFiles() {
 		rc.violate("recovery", "C14:second-hang:"+ending+x.hangClass(), "the transfer after a %s ending never finished: client fail=%q server fail=%q", ending, vClip(rep2.clientFail, 100), vClip(rep2.serverFail, 100))
 		return
+	}
+	if tunnel2 != "same" {
+		// in-band through a relay: binary mode must not have been agreed
+		actOut2, _, _ := x.upLast().Snapshot()
+		if m := vFindMsg(vParseWire(actOut2[x.markUpLast:], false), "ACT"); m != nil {
+			if a, err := vDecodeJSON(m.Payload); err == nil {
+				tun, _ := a["tunnel"].(bool)
+				if b, _ := a["binary"].(bool); b && !tun {
+					rc.violate("narrowing", "C14:second:binary-through-relay", "second transfer (tunnel gone: %s): the relay let binary mode through without a tunnel: ACT at server %v", tunnel2, a)
+					return
+				}
+			}
+		}
 	}
 	vCheckFidelity(rc, x, rep2, before2, true)
 	if rc.res.Class == "violation" {
